@@ -7,9 +7,14 @@
   `hscanCommand` …: next cursor = last element unless the page is short), plus the client loop.
 -/
 import ZanVerif.Data.Codec
+import ZanVerif.Gen.Scan
 
 namespace Z.Scan
 abbrev Bytes := List UInt8
+
+/-- `parseScanArgs` (node/scan.go, regenerated: Gen/Scan.lean): a COUNT above the store's page limit is clamped to it (since fix
+    fbc9256; before it the handlers compared the page length with the unclamped COUNT and every full page looked like the last) -/
+def parseCount (c : Int) : Int := Gen.parseCount c
 
 /-- `checkScanCount` -/
 def checkScanCount (c : Int) : Nat := if c ≤ 0 then 100 else if c > 5000 then 5000 else c.toNat
